@@ -26,48 +26,55 @@ TEXTS = {
     },
     'C15': {
         'level': "Decides structural necessary conditions of RFC 6901 resolution/construction on all functions reachable from "
-                 "the pointer entry points: range tests bound one element (TAB8), the four ~0/~1 tables agree with each "
-                 "other and the RFC (TAB9), case flag propagation (TAB11), pointer buffers sized term-by-term for what is "
+                 "the pointer entry points: range tests bound one element (TAB8), the four ~0/~1 routines agree with each "
+                 "other and the RFC for every byte value (TAB9: byte-set path exploration of each loop), member names reach pointer "
+                 "text only through the encoder (ESC1), case flag propagation (TAB11), pointer buffers sized term-by-term for what is "
                  "written (OUT7), gap-free encoding (OUT5). Does not decide which node a pointer resolves to.",
         'note': COMMON_NOTE + " Not decided: resolution semantics, the 'abc resolves to root' defect named in the property, index overflow.",
-        'technique': 'static analysis: table extraction and agreement, range-test consistency, flag propagation over the call graph, linear size accounting',
+        'technique': 'static analysis: abstract interpretation of the character loops over byte-value sets (per-byte tables of what is written/consumed), taint-style flow of member names into text sinks, range-test consistency, flag propagation over the call graph, linear size accounting',
         'ref': 'DESIGN.md 4 C15; 3 TAB8 TAB9 TAB11 OUT5 OUT7',
     },
     'C16': {
         'level': "Decides the survival/table clauses of patch application on all functions reachable from ApplyPatches*: payload "
                  "use only under a kind test for nodes from the patch document (TAB12, dominance on the CFG), opcode table "
                  "exhaustive and RFC-named (TAB10), case flag propagation (TAB11), in-place key decoder consistent, gap-free and "
-                 "never ahead of its reader (TAB9/OUT5/OUT6 dataflow), tail link restored by every child store (LST1). Does "
-                 "not decide RFC 6902 results.",
+                 "never ahead of its reader (TAB9/OUT5/OUT6 dataflow), tail link restored by every child store (LST1), the Utils "
+                 "array editors agree with the list model on every aliasing pattern (SHP1, shape analysis by finite "
+                 "instantiation), pointer prefix tests end on a token boundary (PFX1). Does not decide RFC 6902 results.",
         'note': COMMON_NOTE + " Not decided: RFC 6902 result/status semantics, leak freedom of every exit.",
-        'technique': 'static analysis: dominance-based guard checking, table extraction, flag propagation, must-written dataflow on write cursors',
+        'technique': 'static analysis: dominance-based guard checking, CFG-guard based opcode table, flag propagation, difference-bound dataflow on cursors, shape analysis of the list editors over abstract heaps',
         'ref': 'DESIGN.md 4 C16; 3 TAB8-TAB12 LST1 OUT5 OUT6',
     },
     'C17': {
         'level': "Decides path-construction and input-preservation clauses of patch generation: every path buffer sized for what "
-                 "is written with the encoded length of the same key (OUT7), escape tables (TAB9), gap-free encoding (OUT5), "
+                 "is written with the encoded length of the same key (OUT7), member names reach pointer text only through the encoder "
+                 "(ESC1), escape routines agree per byte value (TAB9), gap-free encoding (OUT5), "
                  "inputs only re-linked by sorting with the tail link restored (LST1, LST5), flag propagation (TAB11). Does "
                  "not decide that the patch transforms source into target.",
         'note': COMMON_NOTE + " Not decided: patch correctness as a value, emptiness iff equal.",
-        'technique': 'static analysis: linear size accounting, table agreement, field-store census of the sorter, flag propagation',
+        'technique': 'static analysis: linear size accounting, flow of member names into text sinks, byte-set path exploration of the escape routines, field-store census of the sorter, flag propagation',
         'ref': 'DESIGN.md 4 C17; 3 OUT7 TAB9 OUT5 LST1 LST5 TAB11',
     },
     'C18': {
         'level': "Decides that case sensitivity is honoured at every nesting level of merge-patch application and generation "
                  "(TAB11 over everything reachable from the four entry points) and that generation leaves its sorted inputs "
-                 "well-formed (LST1, LST5). The RFC 7396 result itself is not decided and not approximated.",
+                 "well-formed (LST1, LST5). RFC 7396 enters as three structural necessary conditions on the applying code (MRG1-3): a patch "
+                 "value is copied verbatim only where it is known not to be an object, members are removed only under a null patch "
+                 "value and set only otherwise, and member operations happen only on a target known to be an object (tested or "
+                 "freshly created). The merged value itself is not decided.",
         'note': COMMON_NOTE + " Not decided: RFC 7396 results.",
-        'technique': 'static analysis: flag propagation over the call graph with false-arm regions on the CFG; child-store/tail-link pairing',
+        'technique': 'static analysis: flag propagation over the call graph with false-arm regions on the CFG; child-store/tail-link pairing; role inference (target/patch) with guard dominance and a must-be-object dataflow',
         'ref': 'DESIGN.md 4 C18; 3 TAB11 LST1 LST5',
     },
     'C19': {
         'level': "Decides the 'healthy container afterwards' and 'same member nodes' sentences: every child store in both units "
                  "restores the first child's back link, every internal sorter goes through sort_object (LST1, LST5), sort_list "
                  "assigns only next/prev and calls only itself and the comparator, comparator gets the caller's flag (TAB11). "
-                 "Sortedness/permutation/idempotence are not decided.",
-        'note': COMMON_NOTE + " Not decided: sortedness, permutation, idempotence (depend on the merge loop's values).",
-        'technique': 'static analysis: child-store/tail-link pairing, field-store census, flag propagation',
-        'ref': 'DESIGN.md 4 C19; 3 LST1 LST5 TAB11',
+                 "Sortedness, permutation and link consistency are decided for objects of up to five members only (SHP2: sort_object "
+                 "evaluated from its AST over abstract heaps for every arrangement of keys); for longer objects they are not decided.",
+        'note': COMMON_NOTE + " SHP2 is a bounded statement (sorting re-links inside loops and recursion, so there is no small-model argument); not decided: longer objects, idempotence as such.",
+        'technique': 'static analysis: child-store/tail-link pairing, field-store census, flag propagation; bounded shape evaluation of the sorter over abstract heaps',
+        'ref': 'DESIGN.md 4 C19; 3 LST1 LST5 TAB11; 15 SHP2',
     },
 }
 TEXTS.update({
@@ -92,10 +99,10 @@ TEXTS.update({
 })
 TEXTS.update({
     'C06': {
-        'level': "Decides the 'sibling chain stays consistent', 'refused call leaves containers unchanged' and 'NULL argument refused' clauses as structural obligations on every mutator: tail link restored on every path through a child store (CFG must-pass with null/release exemptions), completeness of each list-edit idiom, no refusal reachable after a link store, NULL tests dominating parameter dereferences. The list/map model equivalence over histories is not decided.",
-        'note': COMMON_NOTE + " Not decided: which element ends up where over arbitrary edit histories; lookup semantics.",
-        'technique': 'static analysis: path-sensitive store pairing on the CFG, idiom completeness matching, dominance of NULL tests, reachability of refusals after stores',
-        'ref': 'DESIGN.md 4 C06; 3 LST1-LST4 TAB7',
+        'level': "Decides the 'sibling chain stays consistent', 'refused call leaves containers unchanged' and 'NULL argument refused' clauses as structural obligations on every mutator: tail link restored on every path through a child store (CFG must-pass with null/release exemptions), completeness of each list-edit idiom, no refusal reachable after a link store, NULL tests dominating parameter dereferences. SHP1 decides the list-model clause for the array editors themselves: each editor (append, insert, detach/delete by pointer and index, replace by pointer and index) is evaluated from its AST over abstract heaps for every list of 0..5 elements and every position, and the resulting heap must be the one the ordered-list model gives with all link invariants; five elements realise every aliasing pattern among head/predecessor/item/successor/tail and the premise that the editors store links at most one link away from a named node (and not in loops) is checked, so longer lists add no case. Because every edit re-establishes the invariant it assumes, sequences of edits follow.",
+        'note': COMMON_NOTE + " Not decided: lookup by key (first match, case folding) on which the object-keyed editors rest before they call the pointer-based ones; success flags as values beyond the cases evaluated.",
+        'technique': 'static analysis: shape analysis of the list editors by finite instantiation over abstract heaps (small-model argument with a checked premise); path-sensitive store pairing on the CFG, idiom completeness matching, dominance of NULL tests, reachability of refusals after stores',
+        'ref': 'DESIGN.md 4 C06; 3 LST1-LST4 TAB7; 15 SHP1',
     },
     'C11': {
         'level': "Decides the no-sharing / reference-cleared / bounded-recursion clauses: field-by-field census of the duplicator against the struct definition, provenance of every pointer stored into the copy (fresh-allocation closure), mask shape of the type copy, depth gate with depth+1 handed down, tail link of the copied chain.",
@@ -118,7 +125,7 @@ TEXTS.update({
         'ref': 'DESIGN.md 4 C03; 3 TAB1 OWN2 TAB5a TAB8 TAB17',
     },
     'C07': {
-        'level': "Decides the ownership discipline per function and per path: payload releases guarded by the ownership bit that describes the memory (with no type store before the test), key-alias ordering, no double release / use after release / dangling released field, every block released-linked-or-returned on every path including failing consumers, duplicate/reference constructors set and clear the bits. The allocator balance over arbitrary histories is not decided.",
+        'level': "Decides the ownership discipline per function and per path: payload releases guarded by the ownership bit that describes the memory (with no type store before the test), key-alias ordering, no double release / use after release / dangling released field, every block released-linked-or-returned on every path including failing consumers, duplicate/reference constructors set and clear the bits, and cJSON_Delete releases exactly what each of the 32 kinds of node (two ownership bits x three payload pointers) owns, the node itself last (DEL1). The allocator balance over arbitrary histories is not decided.",
         'note': COMMON_NOTE + " Summaries of consume-on-success callees are a frozen table re-checked against the callee bodies on every run.",
         'technique': 'static analysis: disjunctive typestate dataflow (allocation tokens, parent links, NULL correlation) + CFG path rules for flag-guarded releases and key aliasing',
         'ref': 'DESIGN.md 4 C07; 3 OWN2 OWN4 OWN5 OWN6 TAB14',
@@ -132,9 +139,9 @@ TEXTS.update({
 })
 TEXTS.update({
     'C02': {
-        'level': "Decides necessary structural conditions of exact decoding: entry-point funnel, literal length/advance/type triples, the escape table and the UTF-16/UTF-8 constants against the RFCs (normalised), first-byte sets of the dispatch computed by dataflow over the guards, tail-append order of container members, key taken from the parsed string, int-view saturation. Exact decoding as a value (rounding, UTF-8 arithmetic) is not decided.",
+        'level': "Decides necessary structural conditions of exact decoding: entry-point funnel, literal length/advance/type triples, the escape table against RFC 8259, the UTF-16 escape decoder over all code values (TAB6: which codes stand alone / need a partner / are refused, the code point of all 1024 x 1024 surrogate pairs, the UTF-8 bytes of every code), first-byte sets of the dispatch computed by dataflow over the guards, tail-append order of container members, key taken from the parsed string, int-view saturation. Exact decoding as a value (rounding, UTF-8 arithmetic) is not decided.",
         'note': COMMON_NOTE + " RFC tables (RFC 8259 escapes, RFC 2781/3629 constants) are the oracle for the extracted tables.",
-        'technique': 'static analysis: table/constant extraction from the AST with normalisation, byte-set dataflow over guard conditions, idiom matching for list construction',
+        'technique': 'static analysis: table extraction from the AST, abstract interpretation of the UTF-16 decoder over value sets of its two codes, byte-set dataflow over guard conditions, idiom matching for list construction',
         'ref': 'DESIGN.md 4 C02; 3 TAB2 TAB4 TAB5a TAB6 TAB7 LST1',
     },
 })
